@@ -72,7 +72,7 @@ def main():
         shape = tuple(rnd.choice([1, 2, 3, 4]) for _ in range(rank))
         dims = ["d%d" % k for k in range(rank)]
         fname = os.path.join(wd, "in%d.nc" % fi)
-        stored = rnd.choice(["f8", "f8", "f4", "i4", "i2", "packed"])     # packed: 16-bit integers on disk with scale_factor / add_offset (CF packing), decoded to float64
+        stored = rnd.choice(["f8", "f8", "f4", "i4", "i2", "packed", "f8be"])   # f8be: float64 stored big-endian (files written on / for other platforms)     # packed: 16-bit integers on disk with scale_factor / add_offset (CF packing), decoded to float64
         flavour = rnd.choice(["plain", "fuzzy", "positive", "positive", "marker"])
         size = int(numpy.prod(shape))
         if flavour == "fuzzy":
@@ -86,7 +86,7 @@ def main():
                 stored = "f8"
         else:
             vals = [rnd.choice([rnd.randint(-20, 20) + rnd.choice([0, 0.5, 0.25, 0.75]), -9999.0 if flavour == "marker" else 1.5, 2.5, -3.5, 0.0]) for _ in range(size)]
-        if flavour in ("plain", "marker") and stored in ("f8", "f4") and size >= 2:
+        if flavour in ("plain", "marker") and stored in ("f8", "f4", "f8be") and size >= 2:
             # real values a hair away from the markers tried below (-9999, 0, 2.5, 1.5): they are values, not missing cells
             for _ in range(rnd.randint(1, 2)):
                 vals[rnd.randrange(size)] = rnd.choice([-9998.95, -9999.05, -9998.999, 2.50001, 1.4999999, 3e-9, -2e-9, 2.4999])
@@ -107,7 +107,8 @@ def main():
                 cv = ds.createVariable(dname, "f8", (dname,))
                 cv[:] = numpy.arange(ln) * 1.5 + 10
                 cv.units = "m"
-            v = ds.createVariable("elev", "i2" if stored == "packed" else stored, tuple(dims), fill_value=-32768 if stored in ("i2", "packed") else -99999)
+            v = ds.createVariable("elev", {"packed": "i2", "f8be": "f8"}.get(stored, stored), tuple(dims), fill_value=-32768 if stored in ("i2", "packed") else -99999,
+                                  **({"endian": "big"} if stored == "f8be" else {}))
             if stored == "packed":
                 v.scale_factor = numpy.float64(0.5)
                 v.add_offset = numpy.float64(1.0)
@@ -118,7 +119,7 @@ def main():
         dist["masked_cells"] += sum(fmask)
         with netCDF4.Dataset(fname) as ds:
             filevar = ds["elev"][:]
-        kind = "KFloat64" if stored in ("f8", "packed") else ("KInt" if stored.startswith("i") else "KFloatOther")
+        kind = "KFloat64" if stored in ("f8", "packed", "f8be") else ("KInt" if stored.startswith("i") else "KFloatOther")
         var_term = "(Some {| v_kind := %s; v_shape := %s; v_cells := %s |})" % (kind, clist([cnat(x) for x in shape]), c_cells(filevar))
         # ---- reads under parameter combinations ----
         for ri in range(3):
@@ -169,14 +170,14 @@ def main():
                 for i, (x, fm) in enumerate(zip(vals, fmask)):
                     exp_missing = fm or (missing is not None and ((int(round(x)) == int(missing)) if want_int else (float(numpy.float32(x)) if stored == "f4" else x) == float(missing)) and (not want_int or True))
                     if want_int and missing is not None:
-                        conv = int(numpy.rint(x)) if stored in ("f8", "packed") else int(x)
+                        conv = int(numpy.rint(x)) if stored in ("f8", "packed", "f8be") else int(x)
                         exp_missing = fm or conv == int(missing)
                     if gm[i] != exp_missing:
                         fails.append({"sig": "C18:read-missing", "what": "cell %d: missing=%r, expected %r (file mask %r, value %r, MissingValue %r)" % (i, gm[i], exp_missing, fm, x, missing), "replay": replay})
                         break
                     if not gm[i]:
                         if want_int:
-                            want = int(numpy.rint(x)) if stored in ("f8", "packed") else int(x)
+                            want = int(numpy.rint(x)) if stored in ("f8", "packed", "f8be") else int(x)
                         else:
                             want = float(numpy.float32(x)) if stored == "f4" else x
                             if dtype == "Fuzzy":
